@@ -17,9 +17,10 @@ def dirty_sources():
     """Files of the code under test (stcp and the send queue it is built on) that differ from
     /repo's HEAD at build time: other builders mutate the shared tree, and a rejection must be
     attributable to the tree that was actually compiled."""
+    import os
     import subprocess
     try:
-        out = subprocess.run(["git", "-C", "/repo", "status", "--porcelain", "--", "stcp", "syncx/pipe/q"],
+        out = subprocess.run(["git", "-C", os.environ.get("VERIF_REPO", "/repo"), "status", "--porcelain", "--", "stcp", "syncx/pipe/q"],
                              stdout=subprocess.PIPE, stderr=subprocess.DEVNULL, timeout=30).stdout.decode()
     except Exception:
         return []
@@ -90,7 +91,16 @@ def run(ctx):
              "(300 ms .. 8 s) - 6..8 MB in 128 KB blocks through Server -> Do, Close at once, client reads "
              "64 KB per ms to the end of the stream and reports the intact blocks in order, the end kind and "
              "the tail; life-cycle orders on NewSession objects: Send / Close before Start, Close without "
-             "Start, Close racing Start from two goroutines; a trace is one SessionMgr lifetime",
+             "Start, Close racing Start from two goroutines; a trace is one SessionMgr lifetime.  Audit additions: handlers "
+             "that call Send / Close from inside Read and from inside OnExit (recorded by the handler, call + "
+             "record serialized with the driver's), temporary-but-not-timeout errors, all sessions of a fresh "
+             "manager started at the same moment, option extremes (timeouts negative / 0 / 1 ms / 2^30 ms on "
+             "scripted connections; read deadline 0 / negative / 1 ms, write deadline 0 / negative, connection "
+             "limit -1 / 0 / default / 2^31-1 on sockets), an exit racing a burst of dials, all sessions closed at "
+             "the same moment, server stopped before its sessions, ConnCount sampled by a free-running reader "
+             "during every burst and exit (min / max in the sync), Send's argument checked unchanged (inmut); "
+             "calls into the code run under watchdogs and a call or goroutine that does not come back, an "
+             "unknown RemoteAddr or a dead accept loop are recorded as stuck / alien / noaccept events",
         explanation="after every step: ConnCount, OnExit calls, connection closed, Write / Read in flight, "
                     "bytes at the peer and goroutines left per session must be the quiescent successor "
                     "state of Session.tla; on sockets: admitted/refused per dial, bytes read up to a clean "
